@@ -369,6 +369,20 @@ class Specs:
                                 "{ %sSome(%s) }" % (z, a), "{ %sSome(%s) }" % (z, b)))
             else:
                 out.append(Pair("E-sat", "saturating_" + X, L, ps2, L, a, b))
+            # the same link through the checked form (the Euclidean overflowing_ and checked_ forms are implemented
+            # separately and the pair above normalises nowhere): the checked value, else the bound on the quotient's
+            # side -- positive exactly when both operands are positive or both negative (a zero dividend never overflows)
+            if X in ("div", "div_euclid", "mul") and ("checked_" + X) in methods:
+                if lay.signed:
+                    side2 = "if (a0.to_bits() > 0) == (%s > 0) { <%s>::max_value() } else { <%s>::min_value() }" % (rb, L, L)
+                else:
+                    side2 = "<%s>::max_value()" % L
+                b2 = "match <%s>::checked_%s(a0, a1) { Some(v) => v, None => { %s } }" % (L, X, side2)
+                if div:
+                    out.append(Pair("E-sat", "saturating_%s_vs_checked" % X, L, ps2, "Option<%s>" % L,
+                                    "{ %sSome(%s) }" % (z, a), "{ %sSome(%s) }" % (z, b2)))
+                else:
+                    out.append(Pair("E-sat", "saturating_%s_vs_checked" % X, L, ps2, L, a, b2))
         # signed saturating_sub / neg / abs: side follows from the operands' signs
         if lay.signed:
             ps = "a0: %s, a1: %s" % (L, L)
